@@ -29,9 +29,13 @@ COQ_TARGETS = ["C08/Model.vo", "C08/Proofs.vo", "C08/ProofsPS.vo", "C08/ProofsFo
 COQ_DIRS = ["C08"]
 PROPERTIES_FILE = "Properties/C08.v"
 ALLOWED_AXIOMS = set()
-RULE = ("a case is a history of New(n)/Del/Disp/Swap/Meas/segment-boundary operations (mostly valid, ~15% referring to "
-        "deleted / unknown / repeated modes) run on one engine or one backend object; non-trivial = contains a deletion "
-        "or a second program segment")
+RULE = ("a case is a history of New(n)/Del/Disp/Sq/Swap/Meas/segment-boundary/Reset operations (mostly valid, ~15% referring to "
+        "deleted / unknown / repeated modes) run on one engine or one backend object; every operation is realised by one of several "
+        "equivalent command recipes (Dgate, Xgate, R.D.R, S.D.S, loss+D, Coherent, Vacuum+D; BSgate with either argument order; "
+        "homodyne / heterodyne / Fock measurements with and without select; New() default), segments are run one by one or as one "
+        "eng.run([p0, p1, ...]) call, Result.state is requested for all modes or an ascending subset; plus 'survivor' cases "
+        "(an entangled register whose joint reduced state must survive creations / deletions of other modes) and deterministic "
+        "sweeps on 10-11 live modes; non-trivial = contains a deletion or a second program segment")
 TRUSTED_BASE = [
     "Coq 8.16.1 kernel; vm_compute for evaluating the model on generated histories and for the _refuted witnesses",
     "hand-written model coq/C08/Model.v (Program register accounting incl. can_follow, ModeMap/_remap_modes/alloc/dealloc axis "
@@ -39,7 +43,9 @@ TRUSTED_BASE = [
     "/repo by exact correspondence on generated histories at engine level (gaussian, fock; bosonic on single-segment "
     "histories) and backend-API level (all three)",
     "abstraction of simulator content to one integer per mode (coherent displacement in units of 0.05; BSgate(pi/2,0) as the "
-    "two-mode gate; measurement = reset to vacuum); the per-mode fingerprint <x>/0.1 is decoded with tolerance 0.2 units",
+    "two-mode gate; measurement = reset to vacuum); the per-mode fingerprint <x>/0.1 is decoded with tolerance 0.2 units; a second "
+    "harness-only channel (squeeze level, var(x) = 2**-level, tolerance 0.3 in log2) and the survivors' reduced states (1e-7; Fock "
+    "2e-4) are judged by the search predicate only, the Coq model sees Sq as Disp i 0 and a Reset as the start of a new history",
     "harness tools/props/c08.py (drivers, generators, signature classification, Python copy of the specification used as the "
     "search oracle; the copy is compared with the Coq specification run_spec on every generated history)",
     "the bosonic ENGINE re-initialises its circuit for every later non-empty program segment (recorded finding "
@@ -51,7 +57,10 @@ ASSUMPTIONS = [
     "backend-API histories do not repeat a mode inside one del_mode / measure list; a list whose leading entries are valid and "
     "whose later entry is invalid is compared with the model (sequential semantics) but not judged by the property predicate",
     "measurement resets the measured mode to vacuum and leaves the (product) rest untouched",
-    "Fock backend: cutoff 4, at most 4-5 live modes, |data| <= 4 units so that truncation stays below the decoding tolerance",
+    "Fock backend: cutoff 4, at most 4-5 live modes, |data| <= 4 units so that truncation stays below the decoding tolerance; "
+    "the 10-mode Fock sweeps use cutoff 2 and |data| <= 2",
+    "Result.state(modes=subset): ascending subsets only; the subset is given as external indices to the Gaussian / bosonic "
+    "backends and as positions among the live modes to the Fock backend (what each of them documents)",
 ]
 MANIFEST_TEXT = ("C08 (proof): for ALL histories of New/Del/gate/measure/segment operations the modelled Program register, Fock "
                  "ModeMap+tensor axes and Gaussian / bosonic `active` lists are proved to be functions of one finite map index -> "
@@ -338,7 +347,7 @@ def run_engine(case):
                 reg_now = [x.ind for x in prog.register]
                 kw = {}
                 if r.get("modes") is not None:
-                    kw["modes"] = [p if backend == "fock" else reg_now[p] for p in r["modes"]]
+                    kw["modes"] = [p if backend == "fock" else reg_now[p] for p in r["modes"] if p < len(reg_now)]
                 if batch and pos != len(hist) - 1:
                     pending.append(prog)
                     out.append([0, reg_now, None, None])
@@ -903,21 +912,40 @@ def bosonic_reinit(case, pos):
 def classify_error(case, pos, icode, detail):
     be, level = case["backend"], case["level"]
     op = case["ops"][pos]
-    if be == "bosonic" and level == "engine" and op[0] == "Seg" and bosonic_reinit(case, pos):
+    if _bos_known(case, pos):
         return "bosonic:engine:segment-reinit"
     return "%s:%s:valid-op-raised:%s:%s" % (be, level, op[0], icode)
 
 
+def bosonic_reinit_before_reset(case, pos):
+    """A Reset on the bosonic engine restores the mode count of the LAST begin_circuit, which the re-initialisation
+    finding moves to the register size at the start of the latest non-empty segment."""
+    p = pos - 1
+    while p >= 0 and case["ops"][p][0] != "Reset":
+        if case["ops"][p][0] == "Seg" and bosonic_reinit(case, p):
+            return True
+        p -= 1
+    return False
+
+
+def _bos_known(case, pos):
+    if case["backend"] != "bosonic" or case["level"] != "engine":
+        return False
+    k = case["ops"][pos][0]
+    # once a later non-empty segment has re-initialised the circuit, everything observed until the next Reset is affected
+    return (k == "Seg" and bosonic_reinit(case, pos)) or (k in ("Seg", "Reset") and bosonic_reinit_before_reset(case, pos))
+
+
 def classify_modes(case, pos, io, so):
     be, level = case["backend"], case["level"]
-    if be == "bosonic" and level == "engine" and case["ops"][pos][0] == "Seg" and bosonic_reinit(case, pos):
+    if _bos_known(case, pos):
         return "bosonic:engine:segment-reinit"
     return "%s:%s:get_modes" % (be, level)
 
 
 def classify_state(case, pos, io, so):
     be, level = case["backend"], case["level"]
-    if be == "bosonic" and level == "engine" and case["ops"][pos][0] == "Seg" and bosonic_reinit(case, pos):
+    if _bos_known(case, pos):
         return "bosonic:engine:segment-reinit"
     if be == "gaussian" and isinstance(io[3], list):
         # the defect fixed by /repo 23cb098, should it come back: labels right, data read from slots 0..#live-1
@@ -955,6 +983,8 @@ def shrink(case, sig, still):
             if cand["level"] == "engine" and (not cand["ops"] or cand["ops"][-1][0] != "Seg" or cand["ops"][-1][1] is not None):
                 continue
             fix_aux(cand)
+            if cand["backend"] == "fock" and max_live(cand["n"], cand["ops"]) > max(LIVE_CAP["fock"] + 1, max_live(case["n"], case["ops"])):
+                continue      # never shrink into a register the Fock simulator cannot hold
             budget -= 1
             try:
                 if sig in still(cand):
@@ -1058,10 +1088,12 @@ def correspondence(ctx):
     # >= 10 live modes (Fock: cutoff 2)
     for level, be, cnt in [("engine", "gaussian", ctx.budget(8, 80)), ("api", "gaussian", ctx.budget(4, 40)),
                            ("api", "bosonic", ctx.budget(4, 40)), ("engine", "bosonic", ctx.budget(4, 40)),
-                           ("engine", "fock", ctx.budget(1, 10))]:
+                           ("engine", "fock", ctx.budget(0, 8))]:
         for _ in range(cnt):
             cases.append(gen_single_segment(rng, be, wide=True) if (level, be) == ("engine", "bosonic")
                          else gen_history(rng, be, level, wide=True, max_ops=rng.choice([6, 10, 14])))
+    for be, level in (("gaussian", "engine"), ("bosonic", "api"), ("gaussian", "api"), ("bosonic", "engine")) + ((("fock", "engine"),) if not ctx.quick else ()):
+        cases.append(wide_sweep(rng, be, level))
     impls = [run_impl(c) for c in cases]
     shard = 400
     for si in range(0, len(cases), shard):
@@ -1124,10 +1156,13 @@ def search(ctx):
                 cases.append(gen_history(rng, be, level, bad_first=(level == "api")))
     for level, be, cnt in [("engine", "gaussian", ctx.budget(8, 80)), ("engine", "bosonic", ctx.budget(5, 50)),
                            ("api", "gaussian", ctx.budget(3, 30)), ("api", "bosonic", ctx.budget(3, 30)),
-                           ("engine", "fock", ctx.budget(1, 10))]:
+                           ("engine", "fock", ctx.budget(0, 8))]:
         for _ in range(cnt):
             cases.append(gen_single_segment(rng, be, wide=True) if (level, be) == ("engine", "bosonic")
                          else gen_history(rng, be, level, wide=True, max_ops=rng.choice([6, 10, 14]), bad_first=(level == "api")))
+    for be, level in (("gaussian", "engine"), ("bosonic", "engine"), ("fock", "engine")) + ((("fock", "api"),) if not ctx.quick else ()):
+        for _ in range(ctx.budget(1, 6) if be != "fock" else ctx.budget(1, 3)):
+            cases.append(wide_sweep(rng, be, level))
     # the same history on all backends (differential)
     for _ in range(ctx.budget(40, 500)):
         base = gen_history(rng, "fock", "engine", malformed=0.1)
@@ -1138,7 +1173,8 @@ def search(ctx):
                 if o[0] == "Meas":
                     o[1] = o[1][:1]
                     o[2] = "homodyne"
-            cases.append(c)
+            c.pop("cutoff", None)
+            cases.append(fix_aux(c))
     def judge(c, bkt):
         impl = run_impl(c)
         spec = spec_trace(c["n"], c["ops"])
@@ -1150,6 +1186,7 @@ def search(ctx):
 
     for c in cases:
         judge(c, "search/" + bucket(c))
+    search_survivors(ctx, seen)
 
     if not ctx.quick:
         import time as _time
@@ -1184,6 +1221,59 @@ def search(ctx):
         ctx.notes.append("exhaustively enumerated engine histories: " + "; ".join(done))
 
 
+def wide_sweep(rng, backend, level):
+    """Deterministic-shape history on 10-12 modes: every mode gets its own data (observed with >= 10 live modes), a low and
+    possibly a middle index are deleted, survivors are touched again (shifted internal positions), modes are created behind
+    them (>= 10 live, internal positions >= 9 in use, observed), pairs across the gap are swapped, one more deletion, the
+    last modes are touched, observed.  Fock (cutoff 2): the creation comes first, while the state is still pure, and no
+    two-mode gate is used (11 live modes in the mixed representation / a numba specialisation for a 20-axis tensor cost
+    tens of seconds)."""
+    two = backend == "fock"
+    n = rng.choice([10, 11]) if not two else 10
+    hist = []
+    for i in range(n):
+        hist.append(["Disp", i, (i % 2) + 1 if two else (i % 3) + 1])
+    live = list(range(n))
+    if two:
+        hist.append(["New", 1])
+        live.append(n)
+        hist.append(["Disp", n, 2])
+    hist.append(["Seg", None])
+    a, b = rng.randrange(0, 3), rng.randrange(3, n - 2)
+    hist.append(["Del", [b, a]] if (rng.random() < 0.5 and not two) else ["Del", [a]])
+    for d in hist[-1][1]:
+        live.remove(d)
+    for i in (live if not two else [live[0], live[len(live) // 2], live[-2], live[-1]]):
+        hist.append(["Disp", i, -1])
+    if not two:
+        m = n + 1 - len(live)
+        hist.append(["New", m])
+        live += list(range(n, n + m))
+        hist.append(["Disp", live[-1], 2])
+    hist.append(["Seg", None])
+    if not two:
+        hist.append(["Swap", live[-1], live[0]])
+        hist.append(["Swap", live[1], live[-2]])
+    c = rng.choice(live[2:-2])
+    hist.append(["Del", [c]])
+    live.remove(c)
+    for i in live[-3:]:
+        hist.append(["Disp", i, 1])
+    hist.append(["Seg", None])
+    if level != "engine" or backend == "bosonic":      # bosonic engine: single segment (see finding segment-reinit)
+        hist = [o for o in hist if o[0] != "Seg"]
+        if level == "engine":
+            hist.append(["Seg", None])
+    case = {"backend": backend, "level": level, "n": n, "ops": hist, "npseed": 1}
+    if level == "engine":
+        case["styles"] = [rng.choice(["int", "ref"]) for _ in hist]
+    else:
+        case["int_single"] = True
+    if two:
+        case["cutoff"] = 2
+    return case
+
+
 def gen_single_segment(rng, backend, wide=False):
     """Engine history with all the commands of one computation in ONE program segment (the bosonic engine re-initialises
     its circuit for every later non-empty segment — recorded finding — so this is where the property must hold outright).
@@ -1208,9 +1298,183 @@ def gen_single_segment(rng, backend, wide=False):
         return fix_aux(c)
 
 
+# ----------------------------------------------------------------------------------------------
+# "Survivors": entangled modes must come through creations / deletions of OTHER modes with their joint state intact
+# (content that the one-integer-per-mode abstraction cannot see: correlations, complex off-diagonal moments, squeezing)
+
+def gen_survivor_case(rng, backend):
+    n = rng.choice([2, 3]) if backend == "fock" else rng.choice([2, 3, 3, 4])
+    small = backend == "fock"
+    pre = []
+    for i in range(n):
+        pre.append(["Sgate", [round(rng.uniform(0.05, 0.15) if small else rng.uniform(0.2, 0.6), 3), round(rng.uniform(-3, 3), 3)], [i]])
+        pre.append(["Dgate", [round(rng.uniform(0.05, 0.2) if small else rng.uniform(0.2, 0.8), 3), round(rng.uniform(-3, 3), 3)], [i]])
+    pairs = [(i, j) for i in range(n) for j in range(n) if i != j]
+    for _ in range(n):
+        a, b = rng.choice(pairs)
+        pre.append(["BSgate", [round(rng.uniform(0.3, 1.2), 3), round(rng.uniform(-3, 3), 3)], [a, b]])
+    if not small:
+        pre.append(["ThermalLossChannel", [round(rng.uniform(0.6, 0.95), 3), round(rng.uniform(0.1, 0.8), 3)], [rng.randrange(n)]])
+    keep = rng.randrange(n)                       # one original mode is never deleted
+    s = [0] * n
+    tail = []
+    cap = 4 if small else 8
+    for _ in range(rng.choice([2, 4, 6, 9])):
+        lv = [i for i, x in enumerate(s) if x is not None]
+        extra = [i for i in lv if i >= n]
+        k = rng.choice(["New", "New", "Del", "Del", "DispNew", "MeasNew", "Seg"])
+        op = None
+        if k == "New" and len(lv) < cap:
+            op = ["New", rng.choice([1, 1, 2, 3]) if len(lv) + 3 <= cap else 1]
+        elif k == "Del":
+            cand = [i for i in lv if i != keep]
+            if cand:
+                op = ["Del", rng.sample(cand, min(len(cand), rng.choice([1, 1, 2])))]
+        elif k == "DispNew" and extra:
+            op = ["Disp", rng.choice(extra), rng.choice([1, 2, -1])]
+        elif k == "MeasNew" and extra:
+            op = ["Meas", [rng.choice(extra)], "fock" if small else "homodyne"]
+        elif k == "Seg" and backend != "bosonic":
+            op = ["Seg", None]
+        if op is None:
+            continue
+        s = spec_step(s, op)
+        tail.append(op)
+    tail.append(["Seg", None])
+    return {"kind": "survivors", "backend": backend, "n": n, "prefix": pre, "ops": tail, "npseed": rng.randrange(1 << 30),
+            "pure": (False if small and rng.random() < 0.3 else None)}
+
+
+def _survivor_engine(case):
+    o = _opts(case["backend"], case)
+    if case["backend"] == "fock":
+        o["cutoff_dim"] = 5
+    return sf.Engine(case["backend"], backend_options=o)
+
+
+def _prefix_program(case):
+    prog = sf.Program(case["n"])
+    with prog.context as q:
+        for name, params, modes in case["prefix"]:
+            getattr(ops, name)(*params) | tuple(q[m] for m in modes)
+    return prog
+
+
+def _reduced(st, backend, positions):
+    if backend == "fock":
+        return [np.asarray(st.reduced_dm(list(positions)))]
+    if backend == "gaussian":
+        mu, cov = st.reduced_gaussian(list(positions))
+        return [np.asarray(mu), np.asarray(cov)]
+    w, mu, cov = st.reduced_bosonic(list(positions))
+    return [np.asarray(w), np.asarray(mu), np.asarray(cov)]
+
+
+def survivor_failures(case):
+    """[(signature, message)]: after every program segment the original modes still alive must be present under their own
+    labels and their joint reduced state must equal the one right after the entangling prefix."""
+    be = case["backend"]
+    np.random.seed(case.get("npseed", 1))
+    ref_state = _survivor_engine(case).run(_prefix_program(case)).state
+    eng = _survivor_engine(case)
+    prog = _prefix_program(case)
+    s = [0] * case["n"]
+    fails = []
+    for pos, op in enumerate(case["ops"]):
+        k = op[0]
+        if k == "Seg":
+            try:
+                res = eng.run(prog)
+            except Exception as e:
+                return [("%s:survivors:run-raised:%s" % (be, type(e).__name__), "segment ending at tail op #%d raised %r" % (pos, e))]
+            st = res.state
+            names = [st.mode_names[j] for j in range(st.num_modes)]
+            lives = [i for i, x in enumerate(s) if x is not None]
+            if names != ["q[%d]" % i for i in lives]:
+                return [("%s:survivors:labels" % be, "after tail op #%d the state holds %s, live modes are %s" % (pos, names, lives))]
+            surv = [i for i in lives if i < case["n"]]
+            got = _reduced(st, be, [lives.index(i) for i in surv])
+            want = _reduced(ref_state, be, surv)
+            for g, w in zip(got, want):
+                # Fock: a measurement renormalises the truncated state, which rescales everything by 1 + O(1e-5)
+                if g.shape != w.shape or not np.allclose(g, w, atol=(2e-4 if be == "fock" else 1e-7), rtol=0):
+                    return [("%s:survivors:reduced-state-changed" % be,
+                             "after tail op #%d the joint state of the original modes %s differs from the one they had before "
+                             "the other modes were created / deleted (max deviation %s)" % (pos, surv, (float(np.max(np.abs(g - w))) if g.shape == w.shape else "shape")))]
+            prog = sf.Program(prog)
+            continue
+        try:
+            with prog.context:
+                if k == "New":
+                    ops.New(op[1])
+                elif k == "Del":
+                    ops.Del | tuple(prog.reg_refs[i] for i in op[1])
+                elif k == "Disp":
+                    ops.Dgate(*_disp_args(op[2])) | prog.reg_refs[op[1]]
+                elif k == "Meas":
+                    (ops.MeasureFock() if op[2] == "fock" else ops.MeasureX) | prog.reg_refs[op[1][0]]
+        except Exception as e:
+            return [("%s:survivors:valid-op-raised:%s" % (be, k), "tail op #%d %s raised %r" % (pos, op, e))]
+        s = spec_step(s, op)
+    return fails
+
+
+def shrink_survivors(case, sig):
+    cur = copy.deepcopy(case)
+    changed, budget = True, 40
+    while changed and budget > 0:
+        changed = False
+        for i in range(len(cur["ops"]) - 2, -1, -1):
+            cand = copy.deepcopy(cur)
+            del cand["ops"][i]
+            s = [0] * cand["n"]
+            ok = True
+            for o in cand["ops"]:
+                s = spec_step(s, o)
+                if s is None:
+                    ok = False
+                    break
+            if not ok:
+                continue
+            budget -= 1
+            try:
+                if sig in [f[0] for f in survivor_failures(cand)]:
+                    cur, changed = cand, True
+            except Exception:
+                pass
+            if budget <= 0:
+                break
+    return cur
+
+
+def search_survivors(ctx, seen):
+    rng = ctx.rng
+    for be, cnt in (("gaussian", ctx.budget(40, 600)), ("bosonic", ctx.budget(30, 400)), ("fock", ctx.budget(8, 80))):
+        for _ in range(cnt):
+            c = gen_survivor_case(rng, be)
+            ctx.case({"case": c}, nontrivial=any(o[0] == "Del" for o in c["ops"]), bucket="survivors/" + be)
+            try:
+                fails = survivor_failures(c)
+            except Exception as e:
+                fails = [("%s:survivors:harness:%s" % (be, type(e).__name__), repr(e))]
+            for sig, msg in fails:
+                if sig in seen:
+                    continue
+                seen.add(sig)
+                small = shrink_survivors(c, sig)
+                f2 = [f for f in survivor_failures(small) if f[0] == sig]
+                ctx.counterexample(sig, (f2[0][1] if f2 else msg) + " [%s backend, engine level, entangled survivors]" % be, {"case": small})
+
+
 def replay(ctx, data):
     d = data["data"]
     case = d["case"]
+    if case.get("kind") == "survivors":
+        fails = survivor_failures(case)
+        print("survivors case:", case)
+        for f in fails:
+            print("FAILS   :", f[0], "-", f[1])
+        return bool(fails)
     impl = run_impl(case)
     spec = spec_trace(case["n"], case["ops"])
     print("history :", case["backend"], case["level"], "n=%d" % case["n"], case["ops"])
